@@ -12,6 +12,7 @@ use crate::Program;
 use std::borrow::Cow;
 
 use deno_ast::view as ast_view;
+use deno_ast::MediaType;
 use deno_ast::SourcePos;
 use deno_ast::SourceRange;
 use deno_ast::SourceRanged;
@@ -73,10 +74,21 @@ enum AddNewline {
 }
 
 impl FixKind {
-  fn hint(&self) -> String {
+  /// The statement that brings the global into scope: an `import`
+  /// declaration, or a `require` call in a CommonJS file (where `import`
+  /// declarations are a syntax error).
+  fn statement(module: &str, import: &str, common_js: bool) -> String {
+    if common_js {
+      format!("const {import} = require(\"{module}\");")
+    } else {
+      format!("import {import} from \"{module}\";")
+    }
+  }
+
+  fn hint(&self, common_js: bool) -> String {
     match self {
       FixKind::Import { import, module } => {
-        format!("Add `import {} from \"{}\";`", import, module)
+        format!("Add `{}`", Self::statement(module, import, common_js))
       }
       FixKind::Replace(new) => format!("Use {new} instead"),
     }
@@ -91,7 +103,7 @@ impl FixKind {
     }
   }
 
-  fn to_text(self, newline: AddNewline) -> Cow<'static, str> {
+  fn to_text(self, newline: AddNewline, common_js: bool) -> Cow<'static, str> {
     match self {
       FixKind::Import { module, import } => {
         let (leading, trailing) = match newline {
@@ -99,7 +111,8 @@ impl FixKind {
           AddNewline::Trailing => ("", "\n"),
           AddNewline::None => ("", ""),
         };
-        format!("{leading}import {import} from \"{module}\";{trailing}").into()
+        let statement = Self::statement(module, import, common_js);
+        format!("{leading}{statement}{trailing}").into()
       }
       FixKind::Replace(new_text) => new_text.into(),
     }
@@ -131,6 +144,10 @@ fn program_code_start(ctx: &Context) -> SourcePos {
     .unwrap_or(code_start)
 }
 
+fn is_common_js(ctx: &Context) -> bool {
+  ctx.media_type() == MediaType::Cjs
+}
+
 impl NoNodeGlobalsHandler {
   fn fix_change(
     &self,
@@ -159,7 +176,7 @@ impl NoNodeGlobalsHandler {
       (range, AddNewline::None)
     };
     LintFixChange {
-      new_text: fix_kind.to_text(add_newline),
+      new_text: fix_kind.to_text(add_newline, is_common_js(ctx)),
       range: fix_range,
     }
   }
@@ -175,7 +192,7 @@ impl NoNodeGlobalsHandler {
       range,
       CODE,
       MESSAGE,
-      Some(fix_kind.hint().to_string()),
+      Some(fix_kind.hint(is_common_js(ctx))),
       vec![LintFix {
         description: fix_kind.description().into(),
         changes: vec![change],
